@@ -165,6 +165,20 @@ impl RealtimeStats {
 }
 
 impl RealtimeCompressor {
+    /// Leading byte of `compress*` output: the payload is the input itself
+    /// (deadline fallback or small-input shortcut)
+    const TAG_STORED: u8 = 0;
+    /// Leading byte of `compress*` output: the payload was produced by the mode's compressor
+    const TAG_COMPRESSED: u8 = 1;
+
+    /// Prefix a payload with its tag byte
+    fn tagged(tag: u8, payload: &[u8]) -> Vec<u8> {
+        let mut out = Vec::with_capacity(payload.len() + 1);
+        out.push(tag);
+        out.extend_from_slice(payload);
+        out
+    }
+
     /// Create a new real-time compressor
     pub fn new(config: RealtimeConfig) -> Result<Self> {
         let algorithm = config.mode.preferred_algorithm();
@@ -240,11 +254,24 @@ impl RealtimeCompressor {
 
     /// Decompress data
     pub async fn decompress(&self, data: &[u8]) -> Result<Vec<u8>> {
-        let compressor = self.compressor.read()
-            .map_err(|e| crate::error::ZiporaError::system_error(
-                format!("RealtimeCompressor: compressor RwLock poisoned: {}", e)
-            ))?;
-        compressor.decompress(data)
+        let (&tag, payload) = data.split_first().ok_or_else(|| {
+            ZiporaError::invalid_data("RealtimeCompressor: empty input, missing tag byte")
+        })?;
+
+        match tag {
+            Self::TAG_STORED => self.fallback_compressor.decompress(payload),
+            Self::TAG_COMPRESSED => {
+                let compressor = self.compressor.read()
+                    .map_err(|e| crate::error::ZiporaError::system_error(
+                        format!("RealtimeCompressor: compressor RwLock poisoned: {}", e)
+                    ))?;
+                compressor.decompress(payload)
+            }
+            other => Err(ZiporaError::invalid_data(format!(
+                "RealtimeCompressor: unknown tag byte {}",
+                other
+            ))),
+        }
     }
 
     /// Batch compress multiple items
@@ -305,14 +332,15 @@ impl RealtimeCompressor {
     async fn compress_internal(&self, data: &[u8]) -> Result<Vec<u8>> {
         // For very small data, consider skipping compression
         if data.len() < 64 && self.config.mode == CompressionMode::UltraLowLatency {
-            return Ok(data.to_vec());
+            return Ok(Self::tagged(Self::TAG_STORED, data));
         }
 
         let compressor = self.compressor.read()
             .map_err(|e| crate::error::ZiporaError::system_error(
                 format!("RealtimeCompressor: compressor RwLock poisoned: {}", e)
             ))?;
-        compressor.compress(data)
+        let compressed = compressor.compress(data)?;
+        Ok(Self::tagged(Self::TAG_COMPRESSED, &compressed))
     }
 
     /// Handle timeout by falling back to no compression
@@ -327,8 +355,10 @@ impl RealtimeCompressor {
         }
 
         if self.config.fallback_on_timeout {
-            // Use fallback compressor (no-op)
-            self.fallback_compressor.compress(data)
+            // Use fallback compressor (no-op), marked so that decompress() does not
+            // hand it to the mode's decompressor
+            let stored = self.fallback_compressor.compress(data)?;
+            Ok(Self::tagged(Self::TAG_STORED, &stored))
         } else {
             Err(ZiporaError::configuration("compression deadline exceeded"))
         }
